@@ -120,6 +120,17 @@ Definition check_pre (c : case) : bool :=
 (* both at once (one evaluation per recorded factory call) *)
 Definition check_factory (c : case) : bool := check_step c && check_pre c.
 
+(* value semantics: a call on one test case object leaves every other live test case (in
+   particular the original of a clone, and the clones of an original) unchanged; the case is
+   (state of a bystander before the call, after the call) *)
+Definition acase := (tc * tc)%type.
+Definition check_alias (c : acase) : bool := tc_eqb (fst c) (snd c).
+
+(* a pair of test case objects: the original and its clone; operations applied to the clone *)
+Definition clone_pair (t : tc) : tc * tc := (t, clone t).
+Definition run_on_clone (p : tc * tc) (ops : list op) : tc * tc := (fst p, run (snd p) ops).
+Definition run_on_orig (p : tc * tc) (ops : list op) : tc * tc := (run (fst p) ops, snd p).
+
 (* crossover: (maxlen, parent, other, p1, p2, oracle, resulting parent) *)
 Definition xcase := (nat * tc * tc * nat * nat * list var * tc)%type.
 Definition check_crossover (c : xcase) : bool :=
